@@ -184,4 +184,31 @@ def pairedF : List Bytes → Bool
 
 def paired (nals : List Bytes) : Bool := pairedF (nals.filter (fun n => !isDropped n))
 
+/-! ### "SPS/PPS arrive as one STAP-A before the next unit, or individually when STAP-A is disabled" -/
+
+def Item.isStap : Item → Bool
+  | .stapA _ _ => true
+  | _ => false
+
+/-- what the aggregation claim looks at in a plan: per item, is it a STAP-A, and its units -/
+def Item.group (it : Item) : Bool × List Bytes := (it.isStap, it.nals)
+
+/-- `exp` = the units still to come, each with the MTU of the call it is handed over in.  Walking
+    the plan item by item: when the next unit is an SPS whose STAP-A with the following PPS fits
+    the MTU in force when the pair is released (the call of the unit after the PPS), the item that
+    carries it must be a STAP-A with at least two units (so the PPS rides along).  Nothing else is
+    asked (in particular not how other units are packed, nor what happens when it does not fit). -/
+def aggCheck (exp : List (Nat × Bytes)) (g : Bool × List Bytes) : Bool :=
+  match exp with
+  | (_, a) :: (_, b) :: (mc, _) :: _ =>
+    !(isSps a && decide (5 + a.length + b.length ≤ mc)) || (g.1 && decide (2 ≤ g.2.length))
+  | _ => true
+
+def aggOkG : List (Nat × Bytes) → List (Bool × List Bytes) → Bool
+  | _, [] => true
+  | exp, g :: gs => aggCheck exp g && aggOkG (exp.drop g.2.length) gs
+
+def aggOk (disable : Bool) (exp : List (Nat × Bytes)) (plan : List Item) : Bool :=
+  if disable then plan.all (fun it => !it.isStap) else aggOkG exp (plan.map Item.group)
+
 end Rtp.Spec.Rfc6184
